@@ -15,16 +15,16 @@ HIST_CONFIGS = [
     # all plain
     ("P:u32,P:f32", ["std"]),
     ("P:char,P:u32@8", ["s000"]),
-    ("P:Tr8,P:u16,P:str", ["s010"]),
+    ("P:Tr8,P:u16,P:str", ["s010", "e001"]),
     ("P:bool,P:enumE,P:ptr,P:B12@4", ["s111"]),
     # FixedSize only
-    ("P:u32,F:f32", ["s000"]),
+    ("P:u32,F:f32", ["s000", "e100"]),
     ("F:f32,P:u32,F:f32", ["std"]),
     ("P:u32,F:f32@32", ["s100"]),
     ("F:f32@8,P:u32@16,F:f32", ["s001"]),
     ("F:f32@32,F:u32,P:u32", ["s000d"]),
     ("F:uptr,P:uptr", ["s000"]),
-    ("F:str,P:str", ["std", "s110"]),
+    ("F:str,P:str", ["std", "s110", "e010"]),
     ("F:Tr4,P:u8,F:Tr24@8", ["s000", "s011"]),
     ("P:u8,F:u16@16,P:u8,F:u32@4,P:u64@8", ["s101"]),
     # VaryingSize only
@@ -37,10 +37,10 @@ HIST_CONFIGS = [
     ("C:u64,V:u8,P:u64@8", ["s001"]),
     ("C:u64@8,V:uptr,P:uptr", ["s000"]),
     ("C:u64@8,V:str,P:str", ["s000", "stdm"]),
-    ("C:u32,V:Tr4,P:Tr24", ["s000", "s110"]),
+    ("C:u32,V:Tr4,P:Tr24", ["s000", "s110", "e111"]),
     ("P:u8,C:u16,V:Tr8@8,P:TrMv8", ["s010"]),
     # mixed
-    ("F:f32,P:u32,C:u64@8,V:f32", ["s000"]),
+    ("F:f32,P:u32,C:u64@8,V:f32", ["s000", "e100"]),
     ("F:f32@16,P:u32,C:u64@8,V:f32@8", ["std"]),
     ("F:Tr8,C:u8,V:u16@2,P:Tr4@4", ["s000", "s111d"]),
     ("P:byte,C:u32,V:char,F:i16@2,C:u16,V:i16", ["s011"]),
@@ -225,7 +225,7 @@ def hist_units(prop, tier, seed):
     for cfg, kinds in configs:
         ks = list(kinds)
         if prop in KIND_HEAVY and tier == "thorough" and cfg in curated:
-            ks = sorted(set(ks + ALL_STATEFUL + ["std"]))  # the whole propagation-trait grid on the curated lists
+            ks = sorted(set(ks + ALL_STATEFUL + ["std", "e100", "e010", "e001", "e111"]))  # the whole propagation-trait grid on the curated lists
         elif prop == "C08":
             pass
         for k in ks:
@@ -287,7 +287,7 @@ def matrix_units(tier, seed):
     configs = list(MATRIX_CONFIGS)
     units = []
     if tier == "thorough":
-        configs = [(c, sorted(vf.KINDS)) for c, _ in configs] + [(c, k) for c, k in sampled_configs(seed, 12)]
+        configs = [(c, sorted(k for k in vf.KINDS if not k.startswith("e"))) for c, _ in configs] + [(c, k) for c, k in sampled_configs(seed, 12)]
     for cfg, kinds in configs:
         for k in kinds:
             for fl in (["asan", "casan"] if tier == "thorough" or True else ["asan"]):
@@ -476,6 +476,8 @@ ELEM_CONFIGS = [
     ("F:str,P:str", "s110"), ("F:Tr4,P:u8,F:Tr24@8", "s011"), ("P:u32,C:u64@8,V:f32", "s000"), ("P:u32,C:u64@8,V:f32,C:u64@8,V:f32", "s111"), ("C:u64@8,V:f32@16,P:u32", "std"),
     ("C:u8,V:u8,P:u16@4", "s101"), ("C:u64@8,V:uptr,P:uptr", "s000"), ("C:u64@8,V:str,P:str", "stdm"), ("C:u32,V:Tr4,P:Tr24", "s000"), ("P:u8,C:u16,V:Tr8@8,P:TrMv8", "s010"),
     ("F:f32,P:u32,C:u64@8,V:f32", "s000d"), ("F:Tr8,C:u8,V:u16@2,P:Tr4@4", "s111d"), ("C:u32,V:Tr8,C:u8,V:str", "s000"), ("C:u16,V:B3,C:u32,V:u64@8", "s110"),
+    # always-equal allocators with distinguishable instances: memory is interchangeable, get_allocator() still follows the traits
+    ("P:u32,F:f32", "e100"), ("F:Tr4,P:u8,F:Tr24@8", "e111"), ("C:u32,V:Tr4,P:Tr24", "e100"), ("P:Tr8,P:u16,P:str", "e010"), ("P:u32,C:u64@8,V:f32", "e001"), ("F:str,P:str", "e000"),
 ]
 ELEM_RULE = "per case one source vector (2..5 elements in two size classes plus outliers) and a pool of 4 elements; sequences of <= 30 steps: construction from lvalue / const / rvalue references with and without allocator, copy / move / allocator-extended construction from elements, copy / move assignment (also into moved-from elements), element = reference and reference = element of equal sizes, swap, mutation of either side, destruction; after every step values, independence, allocator identity, block ownership, layout, alignment, object registry and ledger; non-trivial: >= 2 assignments between elements of different field sizes (lists without VaryingSize: >= 2 assignments); distinct: hash of the operation list"
 
@@ -603,12 +605,15 @@ def run_race_check(tier):
 
 # ---------------------------------------------------------------------------------------------- layout engine (C02-C05)
 LAYOUT_TYPES = ["u8", "u16", "u32", "u64", "f32", "B3", "B12", "char", "bool", "M8"]
+LAYOUT_ODD = ["B12", "B20", "B24", "B6", "B5", "B3", "B12", "B24"]
 LAYOUT_CORE = [
     # the suite's typedefs and the shapes behind the layout defects found so far
     "P:u32,P:f32", "P:char,P:u32@8", "P:u32,F:f32", "F:f32,P:u32,F:f32", "P:u32,F:f32@32", "F:f32@8,P:u32@16,F:f32", "F:f32@32,F:u32,P:u32", "P:u32,C:u64@8,V:f32",
     "P:u32,C:u64@8,V:f32,C:u64@8,V:f32", "C:u64@8,V:f32@16,P:u32", "P:u32,C:u64@8,V:f32@8,C:u64@8,V:f32@16", "F:f32,P:u32,C:u64@8,V:f32", "F:f32@16,P:u32,C:u64@8,V:f32@8",
     "P:u8,C:u64@8,V:char,C:i32,V:ptr@64,C:u32,V:u32,F:u64@4", "P:u8,F:u16@16,P:u8,F:u32@4,P:u64@8",
     "C:u8,V:u8,P:u16@4", "C:u16,V:B3,C:u32,V:u64@8", "C:u64,V:u8,P:u64@8", "P:byte,C:u32,V:char,F:i16@2,C:u16,V:i16", "F:B12@16", "F:u64@1,F:u8",
+    # spans of values whose size is no power of two between strongly aligned neighbours
+    "P:f64@8,F:B12@8,P:f64@8", "C:u64@8,V:B12", "P:u8,C:u32,V:B24@16,P:u32@16", "F:B20@8,C:u16,V:B6@8,P:u64@8", "C:u64@8,V:B12@8",
 ]
 
 
@@ -621,15 +626,21 @@ def layout_family(rng, count):
     while len(out) < count and guard < count * 50:
         guard += 1
         fields = []
+        # a quarter of the lists are built around spans of values whose size is no power of two and that start (and are
+        # followed by something) strongly aligned: the end of such a span is only as aligned as the lowest set bit of the size
+        odd = len(out) % 4 == 3
+        span_types = LAYOUT_ODD if odd else LAYOUT_TYPES
+        span_aligns = [0, 4, 8, 8, 16, 16, 32] if odd else aligns
+        next_aligns = [0, 4, 8, 8, 16, 16] if odd else aligns
         for _ in range(rng.randint(0, 2)):
             fields.append(("P", rng.choice(LAYOUT_TYPES), rng.choice(aligns)))
         for _ in range(rng.randint(1, 2)):
             k = rng.choice("FVV")
             if k == "V":
                 fields.append(("C", rng.choice(vf.COUNT_TYPES), rng.choice([0, 0, 2, 4, 8, 8])))
-            fields.append((k, rng.choice(LAYOUT_TYPES), rng.choice(aligns)))
+            fields.append((k, rng.choice(span_types), rng.choice(span_aligns)))
             for _ in range(rng.randint(0, 1)):
-                fields.append(("P", rng.choice(LAYOUT_TYPES), rng.choice(aligns)))
+                fields.append(("P", rng.choice(LAYOUT_TYPES + (["u64", "f32"] if odd else [])), rng.choice(next_aligns)))
         if len(fields) > 7:
             continue
         fields = first_gets_max_alignment(rng, fields)
